@@ -409,3 +409,6 @@ def _post_policy_init(engine, st, ctx, out):
 for v in ("defaults", "one class", "list of classes"):
     UNITS.append(Unit("ExceptionRetryPolicy.__init__[%s]" % v, "retry.ExceptionRetryPolicy.__init__", ["C05"], _setup_policy_init(v), _post_policy_init,
                       cfg=lambda: make_cfg(concurrent=False), self_cls="ExceptionRetryPolicy"))
+
+REPLAYS = [("C03", "RetryExecutor._delegate_callback", "replay/c03_retry_delegate_cancelled_outside.py"), ("C06", "RetryExecutor._delegate_callback", "replay/c03_retry_delegate_cancelled_outside.py"),
+           ("C12", "RetryExecutor._delegate_callback", "replay/c12_retry_cancel_inflight_leak.py"), ("C20", "RetryExecutor._delegate_callback", "replay/c12_retry_cancel_inflight_leak.py")]
